@@ -156,7 +156,8 @@ type def struct {
 	label string
 	dest  string
 	title string
-	cont  int // 0 top level, 1 quote, 2 list
+	cont  int  // 0 top level, 1 quote, 2 list, 3 list in quote, 4 quote in quote
+	join  bool // share the root block with the next definition when both are in a quote
 }
 
 func buildDoc(defs []def, use string, useForm, useKind int, usePos int) string {
@@ -171,9 +172,14 @@ func buildDoc(defs []def, use string, useForm, useKind int, usePos int) string {
 			return inContainer(s, "> ", "> ")
 		case 2:
 			return inContainer(s, "- ", "  ")
+		case 3: // list item inside a quote
+			return inContainer(s, "> - ", ">   ")
+		case 4: // quote inside a quote
+			return inContainer(s, "> > ", "> > ")
 		}
 		return s
 	}
+	inQuote := func(d def) bool { return d.cont == 1 || d.cont == 3 || d.cont == 4 }
 	var u string
 	switch useForm {
 	case 0:
@@ -187,16 +193,35 @@ func buildDoc(defs []def, use string, useForm, useKind int, usePos int) string {
 		u = "!" + u
 	}
 	u = "q " + u + " q"
+	// consecutive definitions that both sit in a quote may share one root block
+	// (joined by an empty quote line), so that definitions at different depths
+	// of the same root block compete
+	seps := []string{}
 	for i, d := range defs {
 		if i == usePos {
 			parts = append(parts, u)
+			seps = append(seps, "\n\n")
 		}
 		parts = append(parts, renderDef(d))
+		sep := "\n\n"
+		if i+1 < len(defs) && i+1 != usePos && d.join && inQuote(d) && inQuote(defs[i+1]) {
+			sep = "\n>\n"
+		}
+		seps = append(seps, sep)
 	}
 	if usePos >= len(defs) {
 		parts = append(parts, u)
+		seps = append(seps, "\n")
 	}
-	return strings.Join(parts, "\n\n") + "\n"
+	var sb strings.Builder
+	for i, p := range parts {
+		sb.WriteString(p)
+		if i < len(parts)-1 {
+			sb.WriteString(seps[i])
+		}
+	}
+	sb.WriteString("\n")
+	return sb.String()
 }
 
 var linkRE = regexp.MustCompile(`<(a href|img src)="(/d[0-9])"( title="(t[0-9])")?`)
@@ -209,6 +234,7 @@ func propResolve(c harness.Case) harness.Result {
 		if c.I[fmt.Sprintf("title%d", i)] == 1 {
 			d.title = fmt.Sprintf("t%d", i)
 		}
+		d.join = c.I[fmt.Sprintf("join%d", i)] == 1
 		defs = append(defs, d)
 	}
 	use := c.S["use"]
@@ -307,7 +333,8 @@ func genResolve(t *rapid.T) harness.Case {
 			b = append(b[:j:j], append([]int{rapid.IntRange(0, len(units)-1).Draw(t, "iu")}, b[j:]...)...)
 		}
 		c.SetS(fmt.Sprintf("label%d", i), drawLabel(t, b, true, fmt.Sprintf("d%d", i)))
-		c.SetI(fmt.Sprintf("cont%d", i), rapid.IntRange(0, 2).Draw(t, "cont"))
+		c.SetI(fmt.Sprintf("cont%d", i), rapid.IntRange(0, 4).Draw(t, "cont"))
+		c.SetI(fmt.Sprintf("join%d", i), rapid.IntRange(0, 1).Draw(t, "join"))
 		c.SetI(fmt.Sprintf("title%d", i), rapid.IntRange(0, 1).Draw(t, "title"))
 	}
 	c.SetS("use", use)
